@@ -49,7 +49,8 @@ S = Suite(
          "cache directory (in-process and across interpreters), repeated requests counted by a "
          "recording cache subclass, the same histories through the timeseries driver, and "
          "every truncation point of a stored entry",
-    bound="16x12 base request (nz=6, modes (16,16)); 24 one-argument changes x both orders x "
+    bound="16x12 base request (nz=6, modes (16,16)); 30 one-argument changes (levels: value, "
+          "scalar/list, order, multiplicity) x both orders x "
           "default/explicit halo base; quick: 6 cross-interpreter pairs, 46 truncation offsets of a 2-D and a 3-D entry; "
           "thorough: all pairs also across interpreters, every byte offset of both entries",
     rule="np.array_equal in-process, 1e-12 of the maximum when another interpreter's entry "
@@ -82,6 +83,14 @@ CHANGES = [
     ("levels", {"levels": 3}, {"levels": 8}),
     ("levels", {}, {"levels": [2, 5]}),
     ("levels", {"levels": [2, 5]}, {"levels": [3, 5]}),
+    # the request is an ORDERED selection: slice k belongs to levels[k], so requests that differ
+    # only in the order or the multiplicity of the levels have different results (C10)
+    ("levels-order", {"levels": [2, 8]}, {"levels": [8, 2]}),
+    ("levels-order", {"levels": [2, 5, 3]}, {"levels": [3, 2, 5]}),
+    ("levels-multiplicity", {"levels": [3]}, {"levels": [3, 3]}),
+    ("levels-multiplicity", {"levels": 3}, {"levels": [3, 3]}),
+    ("levels-multiplicity", {"levels": [2, 5]}, {"levels": [2, 2, 5]}),
+    ("levels-multiplicity", {"levels": [5, 2]}, {"levels": [2, 5, 2]}),
     ("modes", {}, {"modes": [24, 16]}),
     ("meas_pt", {}, {"meas_pt": [80.0, 45.0]}),
     ("srf_bg_conc", {}, {"srf_bg_conc": 2.5}),
@@ -212,8 +221,33 @@ def _tmpdir():
     return tempfile.mkdtemp(dir=os.getcwd())
 
 
+_CHILD_ENTRIES = {}
+
+
 def solve_in_child(req, cache_dir):
-    """Solve `req` with a plain GreensFunctionCache(cache_dir) in a fresh interpreter."""
+    """Solve `req` with a plain GreensFunctionCache(cache_dir) in a fresh interpreter.
+    What that interpreter leaves in an empty directory is a function of `req` alone, so the
+    files are kept and copied when the same request is needed again (a fresh interpreter costs
+    ~2 s; the base requests recur in dozens of pairs)."""
+    sig = json.dumps(req, sort_keys=True)
+    if sig in _CHILD_ENTRIES and not os.listdir(cache_dir):
+        for name, raw in _CHILD_ENTRIES[sig].items():
+            with open(os.path.join(cache_dir, name), "wb") as f:
+                f.write(raw)
+        return
+    empty = not os.listdir(cache_dir)
+    _solve_in_child(req, cache_dir)
+    if empty:
+        files = {}
+        for name in os.listdir(cache_dir):
+            path = os.path.join(cache_dir, name)
+            if os.path.isfile(path):
+                with open(path, "rb") as f:
+                    files[name] = f.read()
+        _CHILD_ENTRIES[sig] = files
+
+
+def _solve_in_child(req, cache_dir):
     d = _tmpdir()
     try:
         p = subprocess.run([sys.executable, os.path.abspath(__file__), "--child",
@@ -519,6 +553,8 @@ def npload_contract(variant, offset):
 _DRIVER_PAIRS = [
     ("levels", {}, {"domain.output_levels": [3]}),
     ("levels", {"domain.output_levels": [2, 5]}, {"domain.output_levels": [3, 6]}),
+    ("levels-order", {"domain.output_levels": [2, 5]}, {"domain.output_levels": [5, 2]}),
+    ("levels-multiplicity", {"domain.output_levels": [3]}, {"domain.output_levels": [3, 3]}),
     ("srf_flx.shape", {}, {"domain.nx": 20}),
     ("analytic", {"solver.closure": "CONSTANT"},
      {"solver.closure": "CONSTANT", "solver.analytic": True}),
@@ -535,7 +571,8 @@ def _offsets(n, tier):
 
 def generate(tier, rng):
     thorough = tier == "thorough"
-    xproc_quick = {"levels", "srf_flx.shape", "analytic", "srf_bg_conc", "halo", "meas_pt"}
+    xproc_quick = {"levels", "levels-order", "srf_flx.shape", "analytic", "srf_bg_conc", "halo",
+                   "meas_pt"}
     seen = set()
     for param, oa, ob in CHANGES:
         # every change on a default-halo base and on an explicit-halo base (with the default
@@ -545,9 +582,12 @@ def generate(tier, rng):
             a, b = _req(**dict(base, **oa)), _req(**dict(base, **ob))
             yield "pair", dict(param=param, a=a, b=b, cross_process=False)
             yield "pair", dict(param=param, a=b, b=a, cross_process=False)
-            if thorough or (param, str(base)) not in seen and param in xproc_quick and base:
+            # (the order / multiplicity variants go through another interpreter on the
+            # explicit-halo base only: a child interpreter costs ~2 s)
+            if (thorough and (base or not param.startswith("levels-"))) or (
+                    (param, str(base)) not in seen and param in xproc_quick and base):
                 yield "pair", dict(param=param, a=a, b=b, cross_process=True)
-                if thorough:
+                if thorough and not param.startswith("levels-"):
                     yield "pair", dict(param=param, a=b, b=a, cross_process=True)
             seen.add((param, str(base)))
     reqs = [_req(), _req(halo=40.0), _req(halo=160.0), _req(levels=[2, 5], precision="double"),
